@@ -272,7 +272,7 @@ def guarded(fn, col, timeout_s, label):
     col.checks += res['checks']
     col.checks_passed += res['checks_passed']
     st = res.get('stats', {})
-    for k in ('paths', 'queries', 'obligations', 'discharged', 'inconclusive', 'unmodelled'):
+    for k in ('paths', 'queries', 'obligations', 'discharged', 'inconclusive', 'unmodelled', 'xcheck_agree', 'xcheck_unknown', 'xcheck_disagree'):
         setattr(symx.STATS, k, getattr(symx.STATS, k) + int(st.get(k, 0)))
     symx.STATS.solver_s += st.get('solver_time_s', 0)
     symx.STATS.samples.extend(res.get('smt_samples', [])[: max(0, 3 - len(symx.STATS.samples))])
@@ -420,6 +420,8 @@ def finish(pid, tier, seed, level, merged, t0, *, rule, explanation, bounds, ass
         'paths': int(st.get('paths', 0)),
         'solver_queries': int(st.get('queries', 0)),
         'solver_time_s': st.get('solver_time_s', 0),
+        'second_solver': {'engine': 'cvc5 (python wheel)', 'obligations_rechecked': int(st.get('xcheck_agree', 0) + st.get('xcheck_unknown', 0) + st.get('xcheck_disagree', 0)),
+                          'agree': int(st.get('xcheck_agree', 0)), 'no_verdict': int(st.get('xcheck_unknown', 0)), 'disagree': int(st.get('xcheck_disagree', 0))},
         'functions_encoded': sorted(merged['functions']),
         'bounds': bounds,
         'stubs': list(stubs),
